@@ -511,6 +511,10 @@ def _hist_logs():
     mk('D-cut-after-banner', D, endA, SALT + 3, cut=('after-banner', 0))
     # G: crashed right after the column header of its only run (a record without rows, possibly the first one)
     mk('G-cut-after-header', dict(D, banner='old', timing='old'), endA - 20, SALT + 6, cut=('after-header', 0))
+    # H: a complete pre-2015 log (old banner AND old 'Pair  time (%) = ...' timing lines): whatever the reader learns
+    #    about the format of one log must not be carried over to the next log read by the same object
+    mk('H-old-timing-complete', dict(banner='old', nblocks=1, keymode=0, relation='none', timing='old', filler='plain'),
+       endA - 40, SALT + 7)
     if THOROUGH:
         # E: cut in the middle of the second row, after three tokens
         mk('E-cut-midrow', A, endA, SALT + 4, cut=('midrow', 1, 3))
